@@ -370,7 +370,13 @@ static void flush_stats(C12Stats &st, const Args &a) {
         for (auto &kv : st.viol_count) { s += (first ? "" : ",") + jstr(kv.first) + ":" + std::to_string(kv.second); first = false; }
     s += "},\"coverage\":{";
     first = true;
-    for (auto &kv : coverage_by_function()) { s += (first ? "" : ",") + jstr(kv.first) + ":" + std::to_string(kv.second.first); first = false; }
+    std::string tot;
+    for (auto &kv : coverage_by_function()) {
+        s += (first ? "" : ",") + jstr(kv.first) + ":" + std::to_string(kv.second.first);
+        tot += (first ? "" : ",") + jstr(kv.first) + ":" + std::to_string(kv.second.second);
+        first = false;
+    }
+    s += "},\"coverage_total\":{" + tot;
     s += "},\"nguards\":" + std::to_string(g_nguards);
     s += "}";
     printf("STAT %s\n", s.c_str());
@@ -535,7 +541,21 @@ int c12_batch(const Args &a) {
                 st.det_checked++;
                 if (pr2.loghash != pr.loghash) {
                     st.nondeterministic++;
-                    printf("NONDET {\"run\":%llu,\"sched\":%d}\n", (unsigned long long)i, k);
+                    std::string np = write_replay("C12", "nondet", "nondet", a.seed, i, plan, rec, "");
+                    for (size_t t = 0; t < pr.res.size(); t++)
+                        for (size_t o = 0; o < pr.res[t].size(); o++) {
+                            const OpResult &x = pr.res[t][o], &y = pr2.res[t][o];
+                            if (x.digest == y.digest && x.nev == y.nev) continue;
+                            const Op &op = plan.tasks[t].ops[o];
+                            std::string fm;
+                            if (g_fn[op.fn].fam == FAM_FMT || g_fn[op.fn].fam == FAM_SFMT)
+                                for (auto &bl : op.blobs)
+                                    if ((int64_t)bl.off == op.a[3]) fm = bl.bytes;
+                            printf("NONDET-OP {\"fn\":%s,\"ret\":[%lld,%lld],\"nev\":[%u,%u],\"arena_same\":%d,\"out_same\":%d,\"fmt\":%s,\"a\":[%lld,%lld,%lld,%lld,%lld]}\n",
+                                   jstr(g_fn[op.fn].name).c_str(), (long long)x.ret, (long long)y.ret, x.nev, y.nev, x.arena_hash == y.arena_hash, x.out == y.out,
+                                   jstr(fm).c_str(), (long long)op.a[4], (long long)op.a[5], (long long)op.a[6], (long long)op.a[7], (long long)op.a[8]);
+                        }
+                    printf("NONDET {\"run\":%llu,\"sched\":%d,\"replay\":%s}\n", (unsigned long long)i, k, jstr(np).c_str());
                     fflush(stdout);
                     continue;
                 }
@@ -595,6 +615,7 @@ int c12_batch(const Args &a) {
     }
     g_cur_plan = nullptr;
     flush_stats(st, a);
+    if (getenv("VERIF_DUMP_UNHIT")) dump_unhit_pcs(getenv("VERIF_DUMP_UNHIT"));
     fflush(stdout);
     return 0;
 }
